@@ -31,6 +31,8 @@ type Plan struct {
 	AttesterSlashings [][]uint64 // each: the validators that double-vote
 	SurroundSlashing  []uint64   // validators of one surround-vote slashing
 	Exits             []uint64
+	// ExitEpochBack: the exits are dated this many epochs before the current one (and signed for that epoch)
+	ExitEpochBack uint64
 	// NewDeposits: deposit datas appended to the eth1 tree with this block's eth1 vote… (see eth1 flip)
 	BLSChanges []uint64
 	Txs        int
@@ -48,6 +50,9 @@ type DepSpec struct {
 	Key    int    // key index (pubkey)
 	Amount uint64 // Gwei
 	BadSig bool   // proof-of-possession by another key
+	// ZeroSig: 96 zero bytes as signature — not even decodable as a point. A new validator with it is skipped; a
+	// top-up is credited all the same (the signature of a top-up is never looked at).
+	ZeroSig bool
 }
 
 func committeeBits(mode string, n int) []bool {
@@ -145,7 +150,11 @@ func (n *Node) Produce(slot uint64, pl *Plan) (*refspec.SignedBlock, *refspec.St
 			signer = (ds.Key + 1) % len(w.Keys)
 		}
 		creds := BLSCreds(w.Keys[ds.Key].PK)
-		deposits = append(deposits, w.MakeDepositData(ds.Key, ds.Amount, creds, signer))
+		dd := w.MakeDepositData(ds.Key, ds.Amount, creds, signer)
+		if ds.ZeroSig {
+			dd.Signature = refspec.Signature{}
+		}
+		deposits = append(deposits, dd)
 	}
 	y.Eth1Data = pre.Eth1Data
 	if pl.Eth1Flip {
@@ -260,11 +269,14 @@ func (n *Node) Produce(slot uint64, pl *Plan) (*refspec.SignedBlock, *refspec.St
 	}
 	for _, v := range pl.Exits {
 		e := refspec.VoluntaryExit{Epoch: epoch, ValidatorIndex: v}
+		if pl.ExitEpochBack <= epoch {
+			e.Epoch = epoch - pl.ExitEpochBack
+		}
 		var dom refspec.Bytes32
 		if pre.F >= refspec.Deneb {
 			dom = refspec.ComputeDomain(refspec.DomainVoluntaryExit, c.ForkVersions[refspec.Capella], pre.GenesisValidatorsRoot)
 		} else {
-			dom = pre.Domain(c, refspec.DomainVoluntaryExit, epoch)
+			dom = pre.Domain(c, refspec.DomainVoluntaryExit, e.Epoch)
 		}
 		y.VoluntaryExits = append(y.VoluntaryExits, refspec.SignedVoluntaryExit{Message: e, Signature: w.Sign(w.valKeys(pre, []uint64{v}), refspec.SigningRoot(refssz.Root(&e, nil), dom))})
 	}
